@@ -14,7 +14,7 @@ fi
 if [ -z "$(cd $WT && git status --short)" ]; then echo "MUTATION DID NOT APPLY"; git -C /repo worktree remove --force $WT
 rm -rf /verif/.work/mut_$$; exit 3; fi
 (cd $WT && go build ./... 2>&1 | head -5)
-VERIF_WORK=/verif/.work/mut_$$ VERIF_REPO=$WT ${MUT_TIER:+VERIF_TIER=$MUT_TIER} timeout 1100 /verif/check $PID 2>&1 | grep -E "VIOLATION|KNOWN-FINDING|INFRA|OK tier|^  " | head -12
+VERIF_WORK=/verif/.work/mut_$$ VERIF_REPO=$WT env ${MUT_TIER:+VERIF_TIER=$MUT_TIER} timeout ${MUT_TIMEOUT:-1100} /verif/check $PID 2>&1 | grep -E "VIOLATION|KNOWN-FINDING|INFRA|OK tier|^  " | head -12
 echo "exit=${PIPESTATUS[0]}"
 git -C /repo worktree remove --force $WT
 rm -rf /verif/.work/mut_$$
